@@ -435,6 +435,73 @@ def translate_wc_match(d):
             'def wc_match_body (key head tail head0 tail0 : List UInt8) : List UInt8 :=\n  %s\n' % (c, b))
 
 
+
+def translate_wc_split(d):
+    """`auto wc_pos = name.find_first_of('*'); return { name.substr(0, wc_pos), name.substr(wc_pos+1, npos) };` (asserts are
+    compiled out): the (head, tail) pair as functions of the name"""
+    name = [c for c in kids(d) if c.get('kind') == 'ParmVarDecl'][0]['name']
+    body = [strip(x) for x in kids(body_of(d))]
+    body = [x for x in body if not (x.get('kind') in ('CXXStaticCastExpr', 'CStyleCastExpr') and x.get('castKind') == 'ToVoid')]
+    if len(body) != 2 or body[0].get('kind') != 'DeclStmt' or body[1].get('kind') != 'ReturnStmt':
+        raise TranslateError('wc_split: expected one declaration and one return (besides asserts)')
+    vds = kids(body[0])
+    if len(vds) != 1:
+        raise TranslateError('wc_split: expected one local')
+    local = vds[0]['name']
+
+    def tr(n):
+        n = strip(n)
+        k = n.get('kind')
+        if k == 'ImplicitCastExpr' and n.get('castKind') == 'IntegralCast':
+            return tr(kids(n)[0])
+        if k == 'IntegerLiteral':
+            return '(%d : Nat)' % int(n['value']), 'nat'
+        if k == 'CharacterLiteral':
+            return '(%d : UInt8)' % int(n['value']), 'char'
+        if k == 'CXXDefaultArgExpr':
+            return '(0 : Nat)', 'nat'         # find_first_of's pos = 0
+        if k == 'DeclRefExpr':
+            nm = n['referencedDecl']['name']
+            if nm == name:
+                return 'name', 'str'
+            if nm == local:
+                return 'pos', 'nat'
+            if nm == 'npos':
+                return 'npos', 'nat'
+            raise TranslateError('wc_split: reference to %s' % nm)
+        if k == 'BinaryOperator' and n.get('opcode') == '+':
+            a, at = tr(kids(n)[0]); b, bt = tr(kids(n)[1])
+            if at == bt == 'nat':
+                return '(uadd %s %s)' % (a, b), 'nat'
+        if k == 'CXXMemberCallExpr':
+            callee = strip(kids(n)[0])
+            nm = callee.get('name')
+            o, ot = tr(kids(callee)[0])
+            args = kids(n)[1:]
+            if ot == 'str' and nm == 'find_first_of' and len(args) == 2:
+                c, ct = tr(args[0]); p0, pt = tr(args[1])
+                if ct == 'char' and p0 == '(0 : Nat)':
+                    return '(findFirstOf %s %s)' % (o, c), 'nat'
+            if ot == 'str' and nm == 'substr' and len(args) == 2:
+                a, at = tr(args[0]); b, bt = tr(args[1])
+                if at == bt == 'nat':
+                    return '(substr %s %s %s)' % (o, a, b), 'str'
+            raise TranslateError('wc_split: std::string::%s' % nm)
+        raise TranslateError('wc_split: node %s' % k)
+    init = [c for c in kids(vds[0])][-1]
+    pos, pt = tr(init)
+    if pt != 'nat':
+        raise TranslateError('wc_split: the local is not a position')
+    ctor = find_all(body[1], lambda n: n.get('kind') in ('CXXConstructExpr', 'InitListExpr') and 'WCHeadTail' in qt(n) or 'pair' in qt(n) and n.get('kind') in ('CXXConstructExpr', 'InitListExpr'), [])
+    subs = find_all(body[1], lambda n: n.get('kind') == 'CXXMemberCallExpr' and strip(kids(n)[0]).get('name') == 'substr', [])
+    if len(subs) != 2:
+        raise TranslateError('wc_split: expected a pair of two substr calls in the return')
+    h, ht = tr(subs[0]); t, tt = tr(subs[1])
+    return ('/-- `wc_split`: position of the first `*` -/\ndef wc_split_pos (name : List UInt8) : Nat :=\n  %s\n\n'
+            '/-- `wc_split`: the head (first member of the returned pair) -/\ndef wc_split_head (name : List UInt8) : List UInt8 :=\n  let pos := wc_split_pos name\n  %s\n\n'
+            '/-- `wc_split`: the tail (second member) -/\ndef wc_split_tail (name : List UInt8) : List UInt8 :=\n  let pos := wc_split_pos name\n  %s\n' % (pos, h, t))
+
+
 def lean_str(s):
     return '"' + s.replace('\\', '\\\\').replace('"', '\\"') + '"'
 
@@ -654,6 +721,8 @@ def main(repo, out, work):
         d = one(ds, filt)
         if name == 'wc_match':
             o.append(translate_wc_match(d))
+        if name == 'wc_split':
+            o.append(translate_wc_split(d))
         sk = sk_cc.stmts(body_of(d))
         if name == 'FindOption':
             # the lambda of the synonym comparison is an expression inside an `if`: its text is part of that line
